@@ -123,8 +123,16 @@ func driveC14(c *Ctx) {
 		}
 		c.Probe("world:keyword-rich")
 	}
-	c.In("schema %s", text)
 	ninst := len(insts)
+	if ninst > 0 && c.W(4) == 0 {
+		// an instance built from Go values: members behind pointers, one pointer shared by two
+		// members (the instance kinds Validate steps through; JSON decoding never makes them)
+		i := c.W(ninst)
+		if withPointers(c, insts[i]) {
+			c.Probe("instance-with-shared-go-pointer")
+		}
+	}
+	c.In("schema %s", text)
 	for i := range insts {
 		c.In("inst%d %s", i, JSON(insts[i]))
 	}
@@ -201,8 +209,13 @@ func driveC14(c *Ctx) {
 					inner := dyn.loader()
 					opts.Loader = func(u *url.URL) (*jsonschema.Schema, error) { calls = append(calls, u.String()); return inner(u) }
 				}
+				loaderWasNil, optsBefore := opts.Loader == nil, *opts
 				r := Op(func() { res, err = tree.Resolve(opts) })
 				c.CheckOp("Resolve", r)
+				if (opts.Loader == nil) != loaderWasNil || opts.BaseURI != optsBefore.BaseURI || opts.ValidateDefaults != optsBefore.ValidateDefaults {
+					// the options value belongs to the caller, who may pass it to the next call or to another goroutine
+					c.Fail("C14/purity", "ResolveOptions", "schedule %d (%s) op %d %s: Resolve changed the caller's ResolveOptions (Loader nil before: %v, after: %v; BaseURI %q -> %q)", si, sch, oi, op, loaderWasNil, opts.Loader == nil, optsBefore.BaseURI, opts.BaseURI)
+				}
 				if r.Panicked {
 					d = r.String()
 				} else if err != nil {
@@ -320,4 +333,49 @@ func init() {
 		"documents returned by the Loader are owned by the resolver and are outside the purity oracle",
 		"the fingerprint sees exported fields, map entries, slice elements, dynamic types and pointer aliasing; slice capacity is not observed",
 	}, CommonAssumptions...)
+}
+
+// withPointers rewrites, in place, members of the objects in v (two levels deep) as *any values;
+// in one object with >= 2 members two members get the SAME pointer. It reports whether a pointer
+// was shared.
+func withPointers(c *Ctx, v any) bool {
+	var objs []map[string]any
+	var walk func(x any, d int)
+	walk = func(x any, d int) {
+		if m, ok := x.(map[string]any); ok {
+			objs = append(objs, m)
+			if d > 0 {
+				for _, k := range sortedKeys(m) {
+					walk(m[k], d-1)
+				}
+			}
+		}
+	}
+	walk(v, 1)
+	shared := false
+	for _, m := range objs {
+		ks := sortedKeys(m)
+		if len(ks) >= 2 && !shared && c.W(2) == 0 {
+			a := c.W(len(ks))
+			b := c.W(len(ks) - 1)
+			if b >= a {
+				b++
+			}
+			val := m[ks[a]]
+			if _, isPtr := val.(*any); isPtr {
+				continue
+			}
+			p := &val
+			m[ks[a]], m[ks[b]] = p, p
+			shared = true
+			continue
+		}
+		for _, k := range ks {
+			if _, isPtr := m[k].(*any); !isPtr && c.W(4) == 0 {
+				val := m[k]
+				m[k] = &val
+			}
+		}
+	}
+	return shared
 }
